@@ -160,6 +160,27 @@ def _axis_scales(rng, n=None):
     return out
 
 
+ROUTES = ('plain', 'with_wavenumbers', 'construct', 'T21', 'TL31')
+
+
+def _mkgrid(radius=None, route='plain', **kw):
+    """a grid built through one of the public construction routes users have: the dataclass constructor (dyn.grid),
+    Grid.with_wavenumbers, Grid.construct, or a named factory; `radius` is always passed on."""
+    m = dyn.mods(); sh = m['sh']
+    if route == 'plain':
+        return dyn.grid(radius=radius, **kw)
+    impl = sh.FastSphericalHarmonics if kw.get('impl') == 'fast' else sh.RealSphericalHarmonics
+    if route == 'with_wavenumbers':
+        return sh.Grid.with_wavenumbers(longitude_wavenumbers=kw.get('M', 4), dealiasing=kw.get('dealiasing', 'quadratic'),
+                                        spherical_harmonics_impl=impl, radius=radius)
+    if route == 'construct':
+        return sh.Grid.construct(max_wavenumber=kw.get('max_wavenumber', 3), gaussian_nodes=kw.get('gaussian_nodes', 3),
+                                 spherical_harmonics_impl=impl, radius=radius)
+    if route in ('T21', 'TL31'):
+        return getattr(sh.Grid, route)(spherical_harmonics_impl=impl, radius=radius)
+    raise ValueError(route)
+
+
 def generate(ctx):
     rng = ctx.rng
     quick = ctx.tier == 'quick'
@@ -228,6 +249,18 @@ def generate(ctx):
                      dict(kind='dry', K=3, eqkw={'vertical_advection': 'upwind', 'vertical_matmul_method': 'sparse'}, integrators=['backward_forward_euler'], structure='integers'),
                      dict(kind='dry', K=3, grid={'M': 4, 'L': 5, 'I': 64, 'J': 6}, integrators=['crank_nicolson_rk2']),
                      dict(kind='dry', K=3, grid={'M': 4, 'L': 5, 'I': 12, 'J': 48}, integrators=['crank_nicolson_rk2'])]
+    variants += [dict(kind='dry', K=3, grid={'route': 'construct'}, integrators=['imex_rk_sil3'], filters=['diffusion']),
+                 dict(kind='moist', K=2, grid={'route': 'with_wavenumbers', 'M': 4}, integrators=['crank_nicolson_rk2'])]
+    if not quick:
+        variants += [dict(kind='dry', K=2, grid={'route': 'with_wavenumbers', 'M': 5, 'dealiasing': 'linear'}, integrators=['crank_nicolson_rk2']),
+                     dict(kind='cloud', K=2, grid={'route': 'construct', 'max_wavenumber': 4, 'gaussian_nodes': 4, 'impl': 'fast'}, integrators=['backward_forward_euler']),
+                     dict(kind='dry', K=2, grid={'route': 'TL31'}, integrators=['backward_forward_euler'])]
+    yield 'grid_routes', {'scales': _scales(ctx, 2), 'seed': seed(), 'routes': list(ROUTES)}
+    yield 'shallow_water', {'integrators': ['crank_nicolson_rk2', 'leapfrog'], 'nsteps': 1, 'scales': _scales(ctx, 1), 'seed': seed(), 'grid': {'route': 'construct'}}
+    yield 'winds', {'scales': _scales(ctx, 2), 'seed': seed(), 'grid': {'route': 'with_wavenumbers', 'M': 4}}
+    if not quick:
+        yield 'winds', {'scales': _scales(ctx, 2), 'seed': seed(), 'grid': {'route': 'T21'}}
+        yield 'sw_extreme', {'seed': seed(), 'scales': _scales(ctx, 1), 'grid': {'route': 'T21'}, 'alpha': 0.5}
     for v in variants:
         yield 'pe', dict({'filters': [], 'nsteps': 1, 'inverse_method': 'all', 'scales': _scales(ctx, 1), 'seed': seed()}, **v)
     yield 'sw_extreme', {'seed': seed(), 'scales': _scales(ctx, 1), 'grid': PAD4, 'alpha': 0.7}
@@ -398,7 +431,7 @@ def _to_jnp(tree):
 # ---------------------------------------------------------------------------
 def _pe_problem(rng, kind, K, tref_range=None, gridkw=None, structure=None):
     gridkw = dict(gridkw or {})
-    g0 = dyn.grid(**gridkw)
+    g0 = _mkgrid(**gridkw)
     p = dict(b=util.uneven_boundaries(rng, K), consts=_si_constants(rng),
              vort=dyn.modal_field(rng, g0, (K,), 2, True, 2e-5), div=dyn.modal_field(rng, g0, (K,), 2, True, 4e-6),
              temp=dyn.modal_field(rng, g0, (K,), 2, False, 3.0),
@@ -433,7 +466,7 @@ def _pe_problem(rng, kind, K, tref_range=None, gridkw=None, structure=None):
 def _pe_setup(sv, p, kind, **eqkw):
     m = M(); pe = m['pe']; jnp = m['jnp']
     specs = _register(pe.PrimitiveEquationsSpecs.from_si(scale=_scale(sv), **p['consts']), sv)
-    g = dyn.grid(radius=specs.radius, **p.get('gridkw', {})); c = dyn.coords(g, p['b'])
+    g = _mkgrid(radius=specs.radius, **p.get('gridkw', {})); c = dyn.coords(g, p['b'])
     if eqkw.get('vertical_advection') == 'upwind':
         eqkw = dict(eqkw, vertical_advection=m['sc'].upwind_vertical_advection)
     kw = dict(vorticity=_ND(specs, p['vort'], '1/second'), divergence=_ND(specs, p['div'], '1/second'),
@@ -548,7 +581,7 @@ def r_held_suarez(ctx, a):
 def r_shallow_water(ctx, a):
     m = M(); sw = m['sw']; ti = m['ti']; u = m['units']; sc = m['scales']
     rng = np.random.Generator(np.random.PCG64(a['seed']))
-    g0 = dyn.grid(); K = 2
+    gkw_ = dict(a.get('grid') or {}); g0 = _mkgrid(**gkw_); K = 2
     f = lambda: float(1.0 + 0.2 * (rng.random() - 0.5))
     consts = dict(densities=np.array([1000.0, 1000.0 + float(rng.integers(50, 400))]) * u.kg / u.m ** 3, radius_si=sc.RADIUS * f(),
                   angular_velocity_si=sc.ANGULAR_VELOCITY * f(), gravity_acceleration_si=sc.GRAVITY_ACCELERATION * f())
@@ -569,7 +602,7 @@ def r_shallow_water(ctx, a):
         return out
     for sv in labels:
         specs = _register(sw.ShallowWaterSpecs.from_si(scale=_scale(sv), **consts), sv)
-        g = dyn.grid(radius=specs.radius); c = dyn.layer_coords(g, K)
+        g = _mkgrid(radius=specs.radius, **gkw_); c = dyn.layer_coords(g, K)
         st = _to_jnp(sw.State(vorticity=_ND(specs, p['vort'], '1/second'), divergence=_ND(specs, p['div'], '1/second'),
                               potential=_ND(specs, p['pot'], 'meter**2/second**2')))
         oro = _ND(specs, p['oro'], 'meter**2/second**2'); ref = _ND(specs, p['ref'], 'meter**2/second**2')
@@ -602,7 +635,7 @@ def r_shallow_water(ctx, a):
 def r_filters(ctx, a):
     m = M(); ti = m['ti']; filtering = m['filtering']; pe = m['pe']; u = m['units']
     rng = np.random.Generator(np.random.PCG64(a['seed']))
-    g0 = dyn.grid()
+    g0 = _mkgrid()
     x = {'u': dyn.modal_field(rng, g0, (2,), 3, False, 1.0), 'v': dyn.modal_field(rng, g0, (1,), 3, False, 1.0)}
     dt_si = float(rng.integers(200, 2000)); tau_si = float(a.get('tau_over_dt') or rng.integers(2, 30)) * dt_si
     order_e = int(a.get('order', 2)); cutoff = float(a.get('cutoff', 0.1))
@@ -611,7 +644,7 @@ def r_filters(ctx, a):
     consts = _si_constants(rng)
     for sv in labels:
         specs = _register(pe.PrimitiveEquationsSpecs.from_si(scale=_scale(sv), **consts), sv)
-        g = dyn.grid(radius=specs.radius)
+        g = _mkgrid(radius=specs.radius)
         dt = float(_ND(specs, dt_si, 'second')); tau = float(_ND(specs, tau_si, 'second'))
         xs = _to_jnp(x); out = {}
         def put(nm, y):
@@ -672,7 +705,7 @@ def r_init_states(ctx, a):
     m = M(); pe = m['pe']; u = m['units']; jax = m['jax']
     from dinosaur import primitive_equations_states as pes, xarray_utils
     rng = np.random.Generator(np.random.PCG64(a['seed']))
-    g0 = dyn.grid(); K = 3; b = util.uneven_boundaries(rng, K)
+    g0 = _mkgrid(); K = 3; b = util.uneven_boundaries(rng, K)
     consts = _si_constants(rng)
     height = 500.0 * np.asarray(g0.to_nodal(dyn.modal_field(rng, g0, (), 2, False, 1.0)))
     v = dict(tref=float(rng.integers(260, 300)), p0=float(rng.integers(950, 1050)) * 100.0, p1=float(rng.integers(1, 30)) * 100.0, u0=float(rng.integers(20, 50)),
@@ -695,7 +728,7 @@ def r_init_states(ctx, a):
     for n_, sv in enumerate(labels):
         kw_iso = kw_isos[n_ % 2]; kw_jw = kw_jws[n_ % 2]; u_perturb = u_perturbs[n_ % 2]
         specs = _register(pe.PrimitiveEquationsSpecs.from_si(scale=_scale(sv), **consts), sv)
-        g = dyn.grid(radius=specs.radius); c = dyn.coords(g, b); out = {}
+        g = _mkgrid(radius=specs.radius); c = dyn.coords(g, b); out = {}
         fn, aux = pes.isothermal_rest_atmosphere(c, specs, **kw_iso)
         out.update(_pe_state_si(specs, g, fn(jax.random.PRNGKey(3)), 'isothermal_rest_atmosphere '))
         out['isothermal orography[m]'] = _D(specs, aux[xarray_utils.OROGRAPHY], 'meter')
@@ -729,14 +762,14 @@ def r_radiation(ctx, a):
     from dinosaur import radiation
     import datetime
     rng = np.random.Generator(np.random.PCG64(a['seed']))
-    g0 = dyn.grid(); b = [0.0, 0.5, 1.0]
+    g0 = _mkgrid(); b = [0.0, 0.5, 1.0]
     ref = datetime.datetime(1990 + int(rng.integers(0, 30)), int(rng.integers(1, 13)), int(rng.integers(1, 28)), int(rng.integers(0, 24)), int(rng.integers(0, 60)))
     t_si = [float(x) for x in rng.integers(0, 86400 * 200, size=3)] + [-float(rng.integers(1, 86400 * 30))]      # incl. a negative time
     when = ref + datetime.timedelta(days=float(rng.integers(1, 300)), hours=float(rng.integers(0, 24)))
     labels = ['default'] + a['scales']; R = []
     for sv in labels:
         specs = _register(pe.PrimitiveEquationsSpecs.from_si(scale=_scale(sv)), sv)
-        g = dyn.grid(radius=specs.radius); c = dyn.coords(g, b); out = {}
+        g = _mkgrid(radius=specs.radius); c = dyn.coords(g, b); out = {}
         rf = ref if (len(R) % 2 == 0) else np.datetime64(ref)         # both accepted forms of the reference date
         sr = radiation.SolarRadiation(c, specs, rf); srn = radiation.SolarRadiation.normalized(c, specs, rf)
         for i, t in enumerate(t_si):
@@ -775,7 +808,7 @@ def r_pe_extreme(ctx, a):
 
 
 def _sw_problem(rng, gridkw=None):
-    m = M(); u = m['units']; sc = m['scales']; gridkw = dict(gridkw or {}); g0 = dyn.grid(**gridkw); K = 2
+    m = M(); u = m['units']; sc = m['scales']; gridkw = dict(gridkw or {}); g0 = _mkgrid(**gridkw); K = 2
     f = lambda: float(1.0 + 0.2 * (rng.random() - 0.5))
     consts = dict(densities=np.array([1000.0, 1000.0 + float(rng.integers(50, 400))]) * u.kg / u.m ** 3, radius_si=sc.RADIUS * f(),
                   angular_velocity_si=sc.ANGULAR_VELOCITY * f(), gravity_acceleration_si=sc.GRAVITY_ACCELERATION * f())
@@ -787,7 +820,7 @@ def _sw_problem(rng, gridkw=None):
 def _sw_setup(sv, p):
     m = M(); sw = m['sw']
     specs = _register(sw.ShallowWaterSpecs.from_si(scale=_scale(sv), **p['consts']), sv)
-    g = dyn.grid(radius=specs.radius, **p.get('gridkw', {})); c = dyn.layer_coords(g, p['K'])
+    g = _mkgrid(radius=specs.radius, **p.get('gridkw', {})); c = dyn.layer_coords(g, p['K'])
     st = _to_jnp(sw.State(vorticity=_ND(specs, p['vort'], '1/second'), divergence=_ND(specs, p['div'], '1/second'),
                           potential=_ND(specs, p['pot'], 'meter**2/second**2')))
     eq = sw.ShallowWaterEquations(c, specs, _ND(specs, p['oro'], 'meter**2/second**2'), _ND(specs, p['ref'], 'meter**2/second**2'))
@@ -822,6 +855,42 @@ def r_sw_extreme(ctx, a):
         R['step'].append(o)
     for k in R:
         _cmp(ctx, f'shallow water, one base unit extreme: {k} equal in SI under every scale', R[k], labels)
+
+
+# ---------------------------------------------------------------------------
+# every public grid construction route carries the radius
+# ---------------------------------------------------------------------------
+def r_grid_routes(ctx, a):
+    """Grid(...), Grid.with_wavenumbers, Grid.construct and the named factories, each given radius=specs.radius: the grid
+    must live on the sphere of the non-dimensionalised SI radius (independent reference: radius_SI / length unit), and
+    its radius-dependent operators must agree in SI under every scale."""
+    m = M(); pe = m['pe']; sh = m['sh']; jnp = m['jnp']; u = m['units']
+    rng = np.random.Generator(np.random.PCG64(a['seed']))
+    consts = _si_constants(rng); a_si = float(consts['radius_si'].to('meter').magnitude)
+    labels = ['default'] + a['scales']
+    for route in a['routes']:
+        R = []
+        g0 = _mkgrid(radius=1.0, route=route)
+        x = dyn.modal_field(rng, g0, (), 2, True, 1.0)          # one band-limited scalar (dimensionless)
+        for sv in labels:
+            specs = _register(pe.PrimitiveEquationsSpecs.from_si(scale=_scale(sv), **consts), sv)
+            g = _mkgrid(radius=specs.radius, route=route)
+            want = a_si / _scale_vec(sv)[0]
+            ctx.oracle_close(f'grid.radius = non-dimensionalised SI radius for every construction route [{route}]', float(g.radius), want, tol_rel=1e-12)
+            ctx.exact(f'route {route}: same resolution under every scale', [list(g.modal_shape), list(g.nodal_shape)], [list(g0.modal_shape), list(g0.nodal_shape)])
+            xs = jnp.asarray(x)
+            gx, gy = g.cos_lat_grad(xs)
+            out = {'laplacian_eigenvalues[1/m^2]': _D(specs, g.laplacian_eigenvalues, u.m ** -2),
+                   'laplacian of a scalar[1/m^2]': _D(specs, g.laplacian(xs), u.m ** -2),
+                   'cos_lat_grad of a scalar, x[1/m]': _D(specs, gx, u.m ** -1), 'cos_lat_grad of a scalar, y[1/m]': _D(specs, gy, u.m ** -1),
+                   'div_cos_lat[1/m]': _D(specs, g.div_cos_lat((xs, 0.5 * xs)), u.m ** -1), 'curl_cos_lat[1/m]': _D(specs, g.curl_cos_lat((xs, 0.5 * xs)), u.m ** -1),
+                   'integrate(1)[m^2]': _D(specs, g.integrate(jnp.ones(g.nodal_shape)), u.m ** 2)}
+            R.append(out)
+        ctx.count('grid_route:' + route)
+        _cmp(ctx, f'radius-dependent grid operators equal in SI under every scale [{route}]', R, labels)
+        ll = np.arange(g0.total_wavenumbers, dtype=np.float64)
+        ctx.oracle_close(f'laplacian eigenvalues = -l(l+1)/a^2 with the SI radius [{route}]', R[0]['laplacian_eigenvalues[1/m^2]'], -ll * (ll + 1) / a_si ** 2, tol_rel=1e-12)
+        ctx.oracle_close(f'area of the sphere = 4 pi a^2 with the SI radius [{route}]', R[0]['integrate(1)[m^2]'], 4 * np.pi * a_si ** 2, tol_rel=1e-10)
 
 
 # ---------------------------------------------------------------------------
@@ -869,10 +938,10 @@ def r_winds(ctx, a):
     m = M(); sh = m['sh']; pe = m['pe']; jnp = m['jnp']
     rng = np.random.Generator(np.random.PCG64(a['seed']))
     gkw = dict(a.get('grid') or {})
-    g0 = dyn.grid(**gkw); consts = _si_constants(rng)
+    g0 = _mkgrid(**gkw); consts = _si_constants(rng)
     # SI winds (m/s) of a band-limited flow: diagnosed once, with the grid methods, from SI vorticity / divergence on a
     # grid whose radius is the SI radius in metres
-    g_si = dyn.grid(radius=float(consts['radius_si'].to('meter').magnitude), **gkw)
+    g_si = _mkgrid(radius=float(consts['radius_si'].to('meter').magnitude), **gkw)
     vor_si = dyn.modal_field(rng, g_si, (2,), 2, True, 2e-5); div_si = dyn.modal_field(rng, g_si, (2,), 2, True, 4e-6)
     cu, cv = sh.get_cos_lat_vector(jnp.asarray(vor_si), jnp.asarray(div_si), g_si, clip=False)
     usi = np.asarray(g_si.to_nodal(cu)) / np.asarray(g_si.cos_lat); vsi = np.asarray(g_si.to_nodal(cv)) / np.asarray(g_si.cos_lat)
@@ -882,7 +951,7 @@ def r_winds(ctx, a):
     grids = {}
     for n, sv in enumerate(order):
         specs = _register(pe.PrimitiveEquationsSpecs.from_si(scale=_scale(sv), **consts), sv)
-        g = dyn.grid(radius=specs.radius, **gkw); grids[json_key(sv)] = g
+        g = _mkgrid(radius=specs.radius, **gkw); grids[json_key(sv)] = g
         und = jnp.asarray(_ND(specs, usi, 'meter/second')); vnd = jnp.asarray(_ND(specs, vsi, 'meter/second'))
         vor, div = sh.uv_nodal_to_vor_div_modal(g, und, vnd)
         # the same computation with the (non-jitted) grid methods
@@ -909,7 +978,7 @@ def r_winds(ctx, a):
     ctx.oracle('grids that differ only in radius are different jit-static arguments (g1 != g2)', bool(ok),
                {'radii': [float(g.radius) for g in gs]})
     import dataclasses
-    g1 = dyn.grid(radius=1.0, **gkw); g2 = dataclasses.replace(g1, radius=2.0)
+    g1 = _mkgrid(radius=1.0, **gkw); g2 = dataclasses.replace(g1, radius=2.0)
     ctx.oracle('grids that differ only in radius are different jit-static arguments (g1 != g2)', bool(g1 != g2), {'radii': [1.0, 2.0]})
 
 
@@ -1407,7 +1476,7 @@ def r_ast_scan(ctx, a):
                           'call sites relying on them (scale-dependent behaviour of the caller)': r['literal_default_calls']})
 
 
-RUNNERS = {'pe_extreme': r_pe_extreme, 'sw_extreme': r_sw_extreme, 'dfi': r_dfi, 'winds': r_winds, 'threshold_scan': r_threshold_scan,
+RUNNERS = {'grid_routes': r_grid_routes, 'pe_extreme': r_pe_extreme, 'sw_extreme': r_sw_extreme, 'dfi': r_dfi, 'winds': r_winds, 'threshold_scan': r_threshold_scan,
            'ast_scan': r_ast_scan, 'units': r_units, 'sigma_homog': r_sigma_homog, 'nodal_homog': r_nodal_homog, 'moist_homog': r_moist_homog, 'column_homog': r_column_homog,
            'column_matrix': r_column_matrix, 'expr': r_expr, 'pe': r_pe,
            'held_suarez': r_held_suarez, 'shallow_water': r_shallow_water, 'filters': r_filters, 'helpers': r_helpers,
